@@ -21,7 +21,7 @@ func makeSFO(fields map[string]string, order []string) []byte {
 		ents[i].doff = uint32(len(data))
 		ents[i].dlen = uint32(len(v))
 		dmax := (len(v) + 3) &^ 3
-		if k == "TITLE_ID" {
+		if k == "TITLE_ID" && len(v) <= 16 {
 			dmax = 16
 		}
 		ents[i].dmax = uint32(dmax)
